@@ -1079,7 +1079,9 @@ fn lane_diff(script: &Script, a: &LaneOut, b: &LaneOut) -> Option<(String, Value
         if a.panic != b.panic {
             let i = if b.panic.is_some() { b.obs.len() } else { a.obs.len() };
             let call = script.steps.get(i).map(|s| s.call.as_str()).unwrap_or("?");
-            return Some((format!("c14:{}:panic", api_name(call)), json!({"step": i, "async": a.panic, "sync": b.panic})));
+            // a panic of one lane only, in a step that carries a timeout, is also the timeout property's business (C12)
+            let timed = script.steps.get(i).map(|s| s.tmo != 0).unwrap_or(false);
+            return Some((format!("c14:{}:panic{}", api_name(call), if timed { ":under-timeout" } else { "" }), json!({"step": i, "async": a.panic, "sync": b.panic})));
         }
     }
     let unst = unstable_from(script, a, b);
